@@ -561,6 +561,7 @@ pub fn build_source(spec: &Value, faults: &Rc<Faults>, base: Instant, tick: Dura
                 id: s,
                 children,
                 faults: faults.clone(),
+                rollback: spec["norollback"].as_u64().unwrap_or(0) == 0,
             };
             src.pending = Some(wrap!(comp));
         }
@@ -579,6 +580,7 @@ pub fn build_dup_source(spec: &Value, of: &Src, c: usize, faults: &Rc<Faults>) -
         id: s,
         children: vec![Child::Plain(g)],
         faults: faults.clone(),
+        rollback: true,
     };
     Src {
         spec: spec.clone(),
